@@ -4,7 +4,7 @@ from gramgen import A, B
 
 SUBCMD = "eng"
 IMPORTS = ["FileSet", "Grammar", "Engine", "Spec", "EngineHarness", "EngineOracles"]
-COQ_BASE = ["EngineHarness.vo", "EngineOracles.vo"]
+COQ_BASE = ["EngineHarness.vo", "EngineOracles.vo", "EngineExtract.vo"]
 STALL = 3
 TRUSTED = ["Coq 8.16.1 kernel and vm_compute", "hand-written engine model coq/Engine.v tied to the code by this differential run "
            "(results, errors, call counts, activation and failed-attempt logs compared on every case)",
@@ -13,12 +13,16 @@ ASSUMPTIONS = ["single-byte (ASCII) rune terminals", "Go ints unbounded", "Right
                "grammars whose ambiguity exceeds the per-case budget are cut and counted (cut_by_budget)"]
 
 
+def unprod(rules, root):
+    return not G.all_productive(rules, root)
+
+
 def flags_for(rules, root, named):
     f = 0
     if G.lr_free(rules):
         f |= 1
-    if named and G.all_productive(rules, root) and not G.has_op(rules, root, ('suppress',)):
-        f |= 2
+    if named and not G.has_op(rules, root, ('suppress',)):
+        f |= 2     # every Any/Choice carries a Name (SuppressError removes errors by design: excluded)
     return f
 
 
@@ -50,14 +54,14 @@ def generate(rng, tier, enum_size=5, enum_len=3, sample5=1500, n_random=1000, na
                 continue
             fl = flags_for(rules, root, False)
             for w in G.inputs_upto(enum_len):
-                out.append((G.case_text(rules, root, w, flags=fl), {"stream": "enumerated"}))
+                out.append((G.case_text(rules, root, w, flags=fl), {"stream": "enumerated", "unproductive": unprod(rules, root)}))
     # a sample of the next size (the pinned defect D1 first shows at 6 nodes)
     nxt = [g for g in G.one_rule_grammars(enum_size + 1) if not exponential_shape(*g)]
     rng.shuffle(nxt)
     for rules, root in nxt[:sample5]:
         fl = flags_for(rules, root, False)
         for w in ([A, B, B, B], [B, B], [A, A, B], G.rand_input(rng, 4)):
-            out.append((G.case_text(rules, root, w, flags=fl), {"stream": "enumerated-sample"}))
+            out.append((G.case_text(rules, root, w, flags=fl), {"stream": "enumerated-sample", "unproductive": unprod(rules, root)}))
     for i in range(n_random):
         ops = G.MONO if i % 3 == 0 else G.FULL
         rules, root = G.rand_grammar(rng, ops)
@@ -72,7 +76,8 @@ def generate(rng, tier, enum_size=5, enum_len=3, sample5=1500, n_random=1000, na
         fl = flags_for(rules, root, named)
         for _ in range(2):
             out.append((G.case_text(rules, root, G.rand_input(rng, maxlen), offset=rng.choice([1, 1, 2, 7]), flags=fl),
-                        {"stream": "random-named" if named else ("random-mono" if ops is G.MONO else "random-full")}))
+                        {"stream": "random-named" if named else ("random-mono" if ops is G.MONO else "random-full"),
+                         "unproductive": unprod(rules, root)}))
     return out
 
 
